@@ -10,12 +10,16 @@ INC="-I$H/platform -I$H/rt -I$REPO/platform/linux -I$REPO/platform/gcc -I$REPO/p
 REN="-Dsyscall=vrt_syscall -Dclock_gettime=vrt_clock_gettime -Dmalloc=vrt_malloc -Dfree=vrt_free -Dsched_yield=vrt_sched_yield"
 CF="-O1 -g -w -pthread -fsanitize=thread -fno-omit-frame-pointer"
 SRCS="internal/common.c internal/counter.c internal/cv.c internal/debug.c internal/dll.c internal/mu.c internal/mu_wait.c internal/note.c internal/once.c internal/sem_wait.c internal/time_internal.c internal/wait.c platform/posix/src/nsync_panic.c platform/posix/src/per_thread_waiter.c platform/posix/src/time_rep.c platform/linux/src/nsync_semaphore_futex.c"
+if [ "$VRT_SEMFLAVOUR" = "binary" ]; then
+  SRCS=$(echo $SRCS | sed 's#platform/linux/src/nsync_semaphore_futex.c##')
+fi
 if [ ! -f "$OUT/libnsync_vrt.a" ] || [ -n "$VRT_REBUILD" ]; then
   rm -f "$OUT"/*.o "$OUT/libnsync_vrt.a"
   for s in $SRCS; do
     o="$OUT/$(echo $s | tr '/' '_' | sed 's/\.c$/.o/')"
     clang $CF $INC $REN -c "$REPO/$s" -o "$o" &
   done
+  if [ "$VRT_SEMFLAVOUR" = "binary" ]; then clang $CF $INC $REN -c "$H/rt/sem_binary.c" -o "$OUT/sem_binary.o" & fi
   gcc -O1 -g -w -pthread -I$H/rt -c "$H/rt/vrt.c" -o "$OUT/vrt.o" &
   clang $CF -I$H/rt -c "$H/rt/yield.c" -o "$OUT/yield.o" &
   wait
